@@ -274,8 +274,12 @@ def dag_prog(rng, name, nnodes, with_broadcast, tier):
         elif kind < 0.60:
             b = same_shape(a)
             op = rng.choice(['add', 'sub', 'mul', 'add', 'mul', 'elmax'])
-            if op == 'elmax' and b == a: op = 'add'
             if op == 'mul' and ub[a] * ub[b] > 1e6: op = 'add'
+            if op == 'elmax':
+                # against a fresh random constant: two graph nodes can be equal up to the last ulp of a libm call
+                # (a + b - a vs b), and Go's math and glibc then pick different sides of the tie
+                k = p.tensor(sa, [rng.uniform(-1.5, 1.5) for _ in range(prod(sa))]); shp[k] = list(sa); ub[k] = 1.5
+                b = k
             r = p.bind('%s %s %s' % (op, a, b)); shp[r] = list(sa)
             ub[r] = ub[a] * ub[b] if op == 'mul' else (max(ub[a], ub[b]) if op == 'elmax' else ub[a] + ub[b])
         elif kind < 0.70 and sa and prod(sa) <= 150:
@@ -416,7 +420,10 @@ def gen_C08(rng, tier):
                 if kind == 'un': r = p.bind('%s %s' % (rng.choice(['sin', 'cos', 'tanh']), a))
                 elif kind == 'bin': r = p.bind('%s %s %s' % (rng.choice(['add', 'sub', 'mul']), a, b))
                 elif kind == 'cmp': r = p.bind('%s %s %s' % (rng.choice(['eq', 'ne', 'gt', 'ge', 'lt', 'le']), a, b))
-                elif kind == 'elmax': r = p.bind('%s %s %s' % (rng.choice(['elmax', 'elmin']), a, b))
+                elif kind == 'elmax':
+                    # second operand: a fresh constant (near-ties between libm-derived nodes are ill-conditioned)
+                    kc = p.tensor(shape, [rng.uniform(-1.5, 1.5) for _ in range(n)])
+                    r = p.bind('%s %s %s' % (rng.choice(['elmax', 'elmin']), a, kc))
                 else:
                     if shape: r = p.bind('concat %s,%s 0' % (a, b)); r2 = p.bind('slice %s 0:%d' % (r, shape[0])); r = r2
                     else: r = p.bind('scale %s %s' % (a, f2b(2.0)))
